@@ -35,8 +35,11 @@ package webtransport
 //@   requires r != nil && 0 <= inpos(r)
 //@   requires forall i int :: {inbyte(r, i)} 0 <= inbyte(r, i) && inbyte(r, i) <= 255
 //@   modifies inpos(r), maxalloc()
+//@   ensures result1 == nil ==> wtlen(r, old(inpos(r))) <= 9223372036854775807 && (limit > 0 ==> wtlen(r, old(inpos(r))) <= limit) [C11.wt.next.limit]
+//@   ensures limit > 0 ==> maxalloc() <= max(old(maxalloc()), limit) [C11.wt.next.alloc]
+//@   ensures maxalloc() >= old(maxalloc())
 //@   ensures result1 == nil ==> result0 != nil && inpos(r) == old(inpos(r)) + wthl(r, old(inpos(r))) + wtlen(r, old(inpos(r))) [C11.wt.next.consumed]
-//@   ensures old(inpos(r)) + wthl(r, old(inpos(r))) + wtlen(r, old(inpos(r))) <= inlen(r) && wtlen(r, old(inpos(r))) <= 9223372036854775807 && (wtbin(r, old(inpos(r))) || (wtlen(r, old(inpos(r))) > 0 && 48 <= inbyte(r, old(inpos(r)) + wthl(r, old(inpos(r)))) && inbyte(r, old(inpos(r)) + wthl(r, old(inpos(r)))) <= 54)) ==> result1 == nil [C11.wt.next.accepts]
+//@   ensures old(inpos(r)) + wthl(r, old(inpos(r))) + wtlen(r, old(inpos(r))) <= inlen(r) && wtlen(r, old(inpos(r))) <= 9223372036854775807 && (limit <= 0 || wtlen(r, old(inpos(r))) <= limit) && (wtbin(r, old(inpos(r))) || (wtlen(r, old(inpos(r))) > 0 && 48 <= inbyte(r, old(inpos(r)) + wthl(r, old(inpos(r)))) && inbyte(r, old(inpos(r)) + wthl(r, old(inpos(r)))) <= 54)) ==> result1 == nil [C11.wt.next.accepts]
 //@   ensures result1 == nil && wtbin(r, old(inpos(r))) ==> result0.IsBinary && result0.Type == 4 && len(result0.Data) == wtlen(r, old(inpos(r))) [C11.wt.next.bin.header]
 //@   ensures result1 == nil && wtbin(r, old(inpos(r))) ==> forall i int :: 0 <= i && i < wtlen(r, old(inpos(r))) ==> result0.Data[i] == inbyte(r, old(inpos(r)) + wthl(r, old(inpos(r))) + i) [C11.wt.next.bin.data]
 //@   ensures result1 == nil && !wtbin(r, old(inpos(r))) && inbyte(r, old(inpos(r)) + wthl(r, old(inpos(r)))) != 98 ==> !result0.IsBinary && result0.Type == inbyte(r, old(inpos(r)) + wthl(r, old(inpos(r)))) - 48 && len(result0.Data) == wtlen(r, old(inpos(r))) - 1 [C11.wt.next.text.header]
@@ -47,6 +50,14 @@ package webtransport
 //@   loop 0 invariant state == 2 ==> inpos(r) == old(inpos(r)) + 1 && wtlow(r, old(inpos(r))) == 127 && isBinary == wtbin(r, old(inpos(r)))
 //@   loop 0 invariant state == 3 ==> inpos(r) == old(inpos(r)) + wthl(r, old(inpos(r))) && expectedLen == wrapint(wtlen(r, old(inpos(r)))) && isBinary == wtbin(r, old(inpos(r))) [C11.wt.next.inv.len]
 
+// The server side reads with its configured limit (MaxBufferSize): no frame header makes it allocate more than that.
+//@ func (*ServerTransport).nextPacket
+//@   requires t.stream != nil && inpos(t.stream) >= 0
+//@   requires forall i int :: {inbyte(t.stream, i)} 0 <= inbyte(t.stream, i) && inbyte(t.stream, i) <= 255
+//@   modifies inpos(), maxalloc()
+//@   ensures t.readLimit > 0 ==> maxalloc() <= max(old(maxalloc()), t.readLimit) [C11.wt.alloc.bound]
+//@   ensures t.readLimit > 0 && result1 == nil ==> wtlen(t.stream, old(inpos(t.stream))) <= t.readLimit [C13.wt.limit]
+
 // L5: a packet of any length survives the WebTransport framing. One lemma per header form; together they cover
 // every length (the boundaries 125/126 and 65535/65536 are the case boundaries).
 //@ lemma RoundTripWTShort(p *parser.Packet, w io.Writer, r io.Reader)
@@ -55,7 +66,7 @@ package webtransport
 //@   let e = call send(w, p)
 //@   requires inpos(r) == 0 && inlen(r) == outlen(w) && forall i int :: {inbyte(r, i)} 0 <= i && i < inlen(r) ==> inbyte(r, i) == outbyte(w, i)
 //@   requires forall i int :: {inbyte(r, i)} 0 <= inbyte(r, i) && inbyte(r, i) <= 255
-//@   let q, e2 = call nextPacket(r)
+//@   let q, e2 = call nextPacket(r, 0)
 //@   ensures e == nil && e2 == nil [C11.rt.wt.short.ok]
 //@   ensures q.Type == p.Type && q.IsBinary == p.IsBinary && len(q.Data) == len(p.Data) [C11.rt.wt.short.header]
 //@   ensures forall i int :: 0 <= i && i < len(p.Data) ==> q.Data[i] == p.Data[i] [C11.rt.wt.short.data]
@@ -66,7 +77,7 @@ package webtransport
 //@   let e = call send(w, p)
 //@   requires inpos(r) == 0 && inlen(r) == outlen(w) && forall i int :: {inbyte(r, i)} 0 <= i && i < inlen(r) ==> inbyte(r, i) == outbyte(w, i)
 //@   requires forall i int :: {inbyte(r, i)} 0 <= inbyte(r, i) && inbyte(r, i) <= 255
-//@   let q, e2 = call nextPacket(r)
+//@   let q, e2 = call nextPacket(r, 0)
 //@   ensures e == nil && e2 == nil [C11.rt.wt.medium.ok]
 //@   ensures q.Type == p.Type && q.IsBinary == p.IsBinary && len(q.Data) == len(p.Data) [C11.rt.wt.medium.header]
 //@   ensures forall i int :: 0 <= i && i < len(p.Data) ==> q.Data[i] == p.Data[i] [C11.rt.wt.medium.data]
@@ -78,7 +89,7 @@ package webtransport
 //@   let e = call send(w, p)
 //@   requires inpos(r) == 0 && inlen(r) == outlen(w) && forall i int :: {inbyte(r, i)} 0 <= i && i < inlen(r) ==> inbyte(r, i) == outbyte(w, i)
 //@   requires forall i int :: {inbyte(r, i)} 0 <= inbyte(r, i) && inbyte(r, i) <= 255
-//@   let q, e2 = call nextPacket(r)
+//@   let q, e2 = call nextPacket(r, 0)
 //@   ensures e == nil && e2 == nil [C11.rt.wt.long.ok]
 //@   ensures q.Type == p.Type && q.IsBinary == p.IsBinary && len(q.Data) == len(p.Data) [C11.rt.wt.long.header]
 //@   ensures forall i int :: 0 <= i && i < len(p.Data) ==> q.Data[i] == p.Data[i] [C11.rt.wt.long.data]
